@@ -43,6 +43,13 @@ pub fn oracle_roundtrip(w: &mut Worker, case: &Case) -> Vec<Violation> {
         None => return v,
     };
     if !d.ok() {
+        // a decompile that reports an error is exempt (e.g. sources with raw jump offsets compile to
+        // files whose jumps truth then refuses); one that crashes or hangs is not a report of anything
+        let crash = term_violations(&w.ctx.cfg, d);
+        if !crash.is_empty() {
+            w.stats.nontrivial.insert(rng::hash_bytes(case.name.as_bytes()));
+            return crash;
+        }
         w.stats.probe("roundtrip:decompile-failed(exempt)");
         return v;
     }
@@ -59,6 +66,10 @@ pub fn oracle_roundtrip(w: &mut Worker, case: &Case) -> Vec<Violation> {
         None => return v,
     };
     if !c.ok() {
+        let crash = term_violations(&w.ctx.cfg, c);
+        if !crash.is_empty() {
+            return crash;
+        }
         v.push(Violation { class: format!("roundtrip:recompile-failed:{}", tool), detail: format!("decompile succeeded silently ({}), but: {}", case.steps[dec].argv.join(" "), short(&c.stderr, 500)) });
         return v;
     }
